@@ -20,9 +20,9 @@ var c04Cfg = mwCfg{
 	minTasks: 2, maxTasks: 5, minOps: 1, maxOps: 5,
 	menu: []opKind{opAdd, opAdd, opRemove, opRemove, opSet, opToggle, opEval,
 		opCanAdd, opCanRemove, opAddErr},
-	pNoArgs: 4,
-	hooks:   []string{"pq.lost", "pq.exit", "pq.released", "qm.appended", "qm.prepended", "pq.beforeSubs"},
-	pHook:   2,
+	pNoArgs:    4,
+	hooks:      []string{"pq.lost", "pq.exit", "pq.released", "qm.appended", "qm.prepended", "pq.beforeSubs"},
+	pHook:      2,
 	timeWeight: 40,
 }
 
